@@ -181,7 +181,7 @@ def run_one(res, sensor, mtype, body, nb, neg, cls, sk, must_decode, wit_extra=N
     try:
         with sensor:
             try:
-                msg = Message.unpack(mtype, body, neg)
+                msg = Message.unpack(mtype, memoryview(body), neg)  # a memoryview, as Connection.reader hands the body over
                 force(msg)
             except Notify as n:
                 outcome = ('notify', n.code, n.subcode)
@@ -262,10 +262,21 @@ def run_shard(desc):
         elif t < 0.9:
             body = bytes([r.choice([1, 2, 3, 4, 5, 6]), r.randrange(0, 12)]) + bytes(r.getrandbits(8) for _ in range(r.choice([0, 1, 5, 64, 200])))
             mtype = 3
-        elif t < 0.96:
+        elif t < 0.94:
             f = r.choice(FAMS)
             body = struct.pack('!HBB', f[0], r.choice([0, 1, 2]), f[1])
             mtype = 5
+        elif t < 0.97:
+            # OPERATIONAL (draft-ietf-idr-operational-message), negotiated by these sessions: advisories, queries, counters
+            what = r.choice([1, 2, 3, 4, 5, 6, 7, 8, 9, 10, 11, 12])
+            if what in (1, 2):
+                payload = struct.pack('!HB', 1, 1) + bytes(r.choice([b'', b'hello', 'caf\xe9'.encode(), bytes(range(32, 127)), b'x' * 2100]))
+            elif what in (3, 5, 7):
+                payload = struct.pack('!HB', 1, 1) + bytes([10, 0, 0, 2]) + struct.pack('!L', r.getrandbits(32))
+            else:
+                payload = struct.pack('!HB', 1, 1) + bytes([10, 0, 0, 2]) + struct.pack('!LL', r.getrandbits(32), r.getrandbits(32))
+            body = struct.pack('!HH', what, len(payload)) + payload
+            mtype = 6
         else:
             body = b''
             mtype = 4
